@@ -1,5 +1,5 @@
 (* Lemmas about the backend-initiated channel models (Model.Proxy). *)
-From VV Require Import Base.Bits Base.Rt Base.Val Gen.GenConsts Gen.GenLayout Gen.GenFns Model.Transport Model.Proxy.
+From VV Require Import Base.Bits Base.Rt Base.Val Gen.GenConsts Gen.GenLayout Gen.GenFns Gen.GenFsAck Model.Transport Model.Proxy.
 From Coq Require Import ZArith ZifyBool ZifyN.
 Open Scope string_scope.
 Open Scope list_scope.
@@ -18,16 +18,16 @@ Ltac split_all :=
 Lemma ack_value_ok n : hres_ack (HOk n) = n.
 Proof. reflexivity. Qed.
 Lemma ack_value_errno e : 0 < e < 2 ^ 64 -> hres_ack (HErrno e) + e = 2 ^ 64.
-Proof. intros H. unfold hres_ack, neg64. rewrite N.mod_small by lia. lia. Qed.
+Proof. intros H. unfold hres_ack, fsack_value_errno, neg64. rewrite N.mod_small by lia. lia. Qed.
 Lemma ack_value_other : hres_ack HErrOther + 22 = 2 ^ 64.
 Proof. reflexivity. Qed.
 
 (* without REPLY_ACK (or without NEED_REPLY) nothing is written *)
 Lemma fs_ack_silent ra h v :
   ra && VhostUserMsgHeader_is_need_reply RB h = false -> fs_ack ra h v = [].
-Proof. intros H. unfold fs_ack. rewrite H. reflexivity. Qed.
+Proof. intros H. unfold fs_ack, fsack_written. rewrite H. reflexivity. Qed.
 Lemma fs_ack_one ra h v : (List.length (fs_ack ra h v) <= 1)%nat.
-Proof. unfold fs_ack. destruct (_ && _); simpl; lia. Qed.
+Proof. unfold fs_ack, fsack_written. destruct (_ && _); simpl; lia. Qed.
 
 (* at most one handler invocation and at most one acknowledgement per request, for every input *)
 Lemma fsrv_at_most_one ra hr q :
@@ -86,3 +86,20 @@ Lemma px_refused_silent_shmem s name a uuid fds q :
 Proof.
   intros [-> | ->] H; unfold px_op; cbn [String.eqb Ascii.eqb Bool.eqb andb]; rewrite H; reflexivity.
 Qed.
+
+(* the expressions REGENERATED from check_msg_size / send_ack_message (Gen.GenFsAck) *)
+Lemma fs_size_bad_spec hs ir v sz ex : fs_size_bad hs ir v sz ex = false <-> (hs = ex /\ ir = false /\ v = 1 /\ sz = ex).
+Proof. unfold fs_size_bad. destruct ir; lia. Qed.
+Lemma fsack_written_spec ra nr : fsack_written ra nr = ra && nr.
+Proof. reflexivity. Qed.
+Lemma fsack_values n e : fsack_value_ok n = n /\ fsack_value_errno e = neg64 e /\ fsack_value_noerrno = neg64 22 /\ fsack_value_other = neg64 22.
+Proof. repeat split; reflexivity. Qed.
+Definition fsack_shape_ok : bool :=
+  match fsack_shape with
+  | [a; b; c; d] =>
+      String.eqb a "let hdr = self . new_reply_header :: < VhostUserU64 > (req) ?" && String.eqb b "let msg = VhostUserU64 :: new (val)"
+      && String.eqb c "self . sub_sock . send_message (& hdr , & msg , None) ? ;" && String.eqb d "after: Ok (())"
+  | _ => false
+  end.
+Lemma fsack_shape_ok_true : fsack_shape_ok = true.
+Proof. vm_compute. reflexivity. Qed.
